@@ -131,6 +131,8 @@ class UnitResult:
         self.items_sha: Dict[str, str] = {}
         self.build_file = ""
         self.checker_cmd = ""
+        self.rewrites: List[dict] = []
+        self.skipped: List[str] = []
 
 
 def scan_trusted(text: str) -> List[str]:
@@ -224,6 +226,8 @@ def run_unit(spec_path: str, tier: str, seed: int, kf_omit: set, do_vacuity: boo
     open(path, "w").write(text)
     R.build_file = path
     R.functions = g.functions
+    R.rewrites = list(g.rewrites)
+    R.skipped = list(g.skipped_hints)
     R.items_sha = g.items_sha
     R.trusted = scan_trusted(text)
     extra = ["--multiple-errors", "50"]
@@ -482,7 +486,13 @@ def check_property(prop: str, tier: str, seed: int, quiet: bool = False) -> int:
             "units": [{"unit": r.unit, "status": r.status, "reason": r.reason, "verus_verified": r.verified, "verus_errors": r.errors,
                        "wall_s": round(r.wall, 2), "smt_ms": r.smt_ms} for r in results],
             "back_end": "Verus 0.2026.09.13 (Z3), single-file, functions extracted from /repo on this run",
-            "extraction_rewrites": "E1 attrs dropped + derived impls generated; E2 use dropped; E3 named return + contract; E4 loop invariants; E5 closure return type + ensures; E6 tuple-pattern closure params; E7 exec const; E10 proof hints (see DESIGN.md 3.2); round-trip check passed for every item",
+            "extraction_rewrites": "every item: E1 attributes dropped + derived impls generated, E2 use dropped, E3 named return + contract, E13 visibility widened; where present: E4 loop invariants, E5/E6 closure types + ensures / tuple-pattern parameters, E7 exec const, E10 proof hints; call-site rewrites are listed in call_site_rewrites (rules in DESIGN.md 0.2 / 3.2); round-trip check (strip markers, undo rewrites, compare with /repo text) passed for every item",
+            "call_site_rewrites": [dict(x, unit=r.unit) for r in results for x in r.rewrites if any(o["fid"] == x.get("fn") for o in obligations)],
+            "assumed_leaves": [{"function": fid, "unit": r.unit, "file": info["file"], "line": info["line"],
+                                "note": "E14: body not verified (outside Verus' subset); its contract is an ASSUMPTION used by callers"}
+                               for r in results for fid, info in r.functions.items() if info.get("assumed")],
+            "proof_hints_skipped": [x for r in results for x in r.skipped],
+            "machine_arithmetic": "u64/u128/usize are machine integers with overflow as a proof obligation (strict units) or as abort = revert via E8 partial operators (relaxed units, listed in call_site_rewrites); spec-level sums are mathematical integers",
             "bounded": [], "known_findings": kf_results, "unstable": unstable,
             "undecided": [{"unit": r.unit, "reason": r.reason} for r in undecided] + ([{"not_in_baseline": notbase}] if notbase else []),
             "failed_obligations": [f["oid"] for _, f in failed],
